@@ -12,6 +12,23 @@ NOT_APPLICABLE = {}
 HOOK_COMMITS = []
 
 CHECKS = {
+    "C09": {
+        "run": "^TestC09_",
+        "rule": ("cases = (row or chain, params, variant, script 1..n with ending, upstream marker operator {none, ContextWithValue, ContextMap}, dynamic kind of the "
+                 "subscription context {WithValue, WithCancel, WithDeadline, custom type}). Non-trivial = the case exercises a terminal path (error/complete ending) "
+                 "or a row that stores items (SkipLast, TakeLast, Min/Max, Reduce) - not just pass-through Next; distinct by descriptor hash."),
+        "quick": {"rapid": 400, "timeout": 600, "shards": 4},
+        "thorough": {"rapid": 6000, "timeout": 3000, "shards": 16},
+        "assumptions": COMMON_ASSUMPTIONS,
+        "technique": "property-based testing: marker propagation invariants over enumerated rows and rapid chains (subscription marker, upstream marker, per-item provenance, non-nil)",
+        "level_text": ("Exploration. Every catalogue row (all variants incl. the context-aware callbacks) and random chains are subscribed with a context carrying a marker; "
+                       "sources attach a per-item key; a context operator above the chain attaches a second marker. Checked on every recorded callback (Next, Error, "
+                       "Complete) and every context-aware operator callback: context non-nil, subscription marker visible, upstream marker visible wherever the stage "
+                       "passes upstream notifications on, the item key of a value-preserving row's output is the key of the item it derives from, contexts returned "
+                       "by WithContext callbacks are visible downstream, and every source is subscribed with the subscription context."),
+        "level_note": ("Documented exceptions are encoded, not filtered ad hoc: DefaultIfEmptyWithContext (explicit context), stages that never subscribe their source "
+                       "(Take(0) ...), values a stage produces itself (StartWith prefixes, fallbacks). Hand-off/time rows (Delay, ObserveOn, Zip ...) are checked in C08/C16/C05 harnesses."),
+    },
     "C12": {
         "run": "^TestC12_",
         "rule": ("cases = (row or chain, params, variant, cold script(s), mode) with modes: 3 sequential subscriptions; 2 subscriptions alive together over a manually "
